@@ -798,6 +798,7 @@ func main() {
 		n, _ = strconv.Atoi(os.Args[1])
 	}
 	n += 8
+	deadlineCases()
 	bytesCases(r, thorough)
 	consumedCases(r, thorough)
 	out.Flush()
